@@ -583,6 +583,23 @@ class _SetOperation(Selectable, Term):  # type:ignore[misc]
     def minus(self, other: Selectable) -> "Self":  # type:ignore[return]
         self._set_operation = self._set_operation + [(SetOperation.minus, other)]  # type:ignore[list-item]
 
+    @builder
+    def replace_table(  # type:ignore[return,override]
+        self, current_table: Table | None, new_table: Table | None
+    ) -> "Self":
+        """
+        Replaces all occurrences of the specified table with the new table in every operand.
+        """
+        self.base_query = self.base_query.replace_table(current_table, new_table)
+        self._set_operation = [
+            (operation, query.replace_table(current_table, new_table))
+            for operation, query in self._set_operation
+        ]
+        self._orderbys = [
+            (field.replace_table(current_table, new_table), orient)
+            for field, orient in self._orderbys
+        ]
+
     def __add__(self, other: Selectable) -> "Self":  # type:ignore[override]
         return self.union(other)
 
@@ -903,8 +920,15 @@ class QueryBuilder(Selectable, Term):  # type:ignore[misc]
         :return:
             A copy of the query with the tables replaced.
         """
+        def _replace(term: Any) -> Any:
+            return (
+                term.replace_table(current_table, new_table)
+                if isinstance(term, (Term, Join))
+                else term
+            )
+
         self._from = [
-            new_table if table == current_table else table  # type:ignore[misc]
+            new_table if table == current_table else _replace(table)  # type:ignore[misc]
             for table in self._from
         ]
         if self._insert_table == current_table:
@@ -913,8 +937,8 @@ class QueryBuilder(Selectable, Term):  # type:ignore[misc]
             self._update_table = new_table
 
         self._with = [
-            alias_query.replace_table(current_table, new_table)  # type:ignore[operator]
-            for alias_query in self._with
+            Cte(cte.name, _replace(cte.query), *[_replace(term) for term in cte.terms])
+            for cte in self._with
         ]
         self._selects = [select.replace_table(current_table, new_table) for select in self._selects]
         self._columns = [column.replace_table(current_table, new_table) for column in self._columns]
@@ -940,6 +964,13 @@ class QueryBuilder(Selectable, Term):  # type:ignore[misc]
             for orderby in self._orderbys
         ]
         self._joins = [join.replace_table(current_table, new_table) for join in self._joins]
+        self._updates = [(_replace(field), _replace(value)) for field, value in self._updates]
+        self._on_conflict_fields = [_replace(field) for field in self._on_conflict_fields]
+        self._on_conflict_do_updates = [
+            (_replace(field), _replace(value)) for field, value in self._on_conflict_do_updates
+        ]
+        self._on_conflict_wheres = _replace(self._on_conflict_wheres)
+        self._on_conflict_do_update_wheres = _replace(self._on_conflict_do_update_wheres)
 
         if current_table in self._select_star_tables:
             self._select_star_tables.remove(current_table)
@@ -1805,6 +1836,15 @@ class Joiner:
         return self.query
 
 
+def _replace_join_item(item: Any, current_table: Table | None, new_table: Table | None) -> Any:
+    """The joined item is a table (replaced when it is the table in question) or a subquery (searched)."""
+    if item == current_table:
+        return new_table
+    if isinstance(item, Term):
+        return item.replace_table(current_table, new_table)
+    return item
+
+
 class Join:
     def __init__(self, item: Term, how: JoinType) -> None:
         self.item = item
@@ -1838,7 +1878,7 @@ class Join:
         :return:
             A copy of the join with the tables replaced.
         """
-        self.item = self.item.replace_table(current_table, new_table)
+        self.item = _replace_join_item(self.item, current_table, new_table)
 
 
 class JoinOn(Join):
@@ -1889,8 +1929,7 @@ class JoinOn(Join):
         :return:
             A copy of the join with the tables replaced.
         """
-        if self.item == current_table:
-            self.item = new_table  # type:ignore[assignment]
+        self.item = _replace_join_item(self.item, current_table, new_table)
         self.criterion = self.criterion.replace_table(current_table, new_table)
 
 
@@ -1924,8 +1963,7 @@ class JoinUsing(Join):
         :return:
             A copy of the join with the tables replaced.
         """
-        if self.item == current_table:
-            self.item = new_table  # type:ignore[assignment]
+        self.item = _replace_join_item(self.item, current_table, new_table)
         self.fields = [field.replace_table(current_table, new_table) for field in self.fields]
 
 
